@@ -9,10 +9,12 @@
               C <sid>                    complete_split
               W <sid> <schema> <ts kind> row;row;...    Ingester::write  (kind i n o a)
               F                          flush
+              Hh <sid> row;row;...        register a historical chunk of old shard <sid>
+              B <sid>                    ShardSplitter::run_backfill for the planted split of <sid>
               Q <lo> <hi> <metric|-> <post>   post = raw<t><m><r> | count | sum<i> | cbk | cbm
               X                          dump of buffer / chunks
             -> one token per op joined by |
-              S P C F -> ok ;  W -> ok | err<code> | panic | hang
+              S P C F Hh B -> ok (B: err<code> | panic as well) ;  W -> ok | err<code> | panic | hang
               Q -> <sorted result rows>#<class>#<sorted rows of the same query without split>#<dedup 0|1>
               X -> buf=<rows>#<sorted chunks: shard>row;row  joined by />                       *)
 
@@ -89,6 +91,10 @@ let run_h (parts : string list) : string =
         | ["C"; sid] ->
             let (s, o) = hstep !st (HComplete (n_of_string sid)) in st := s; show_outcome o
         | ["F"] -> let (s, o) = hstep !st HFlush in st := s; show_outcome o
+        | ["Hh"; sid; rows] ->
+            let (s, o) = hstep !st (HHist (n_of_string sid, List.map parse_row (String.split_on_char ';' rows))) in
+            st := s; show_outcome o
+        | ["B"; sid] -> let (s, o) = hstep !st (HBackfill (n_of_string sid)) in st := s; show_outcome o
         | ["W"; sid; schema; kind; rows] ->
             let b = { ib_schema = n_of_string schema; ib_ts = parse_kind kind;
                       ib_rows = List.map parse_row (String.split_on_char ';' rows) } in
@@ -105,7 +111,7 @@ let run_h (parts : string list) : string =
               (if has_active_split !st then 1 else 0)
         | ["X"] ->
             let chunks = List.map (fun c ->
-              Printf.sprintf "%s>%s" (match c.c_shard with None -> "-" | Some s -> string_of_n s)
+              Printf.sprintf "%s>%s" (match c.c_loc with LOrdinary -> "-" | LNew s -> string_of_n s | LHist s -> "h" ^ string_of_n s)
                 (String.concat ";" (List.map show_row c.c_rows))) (!st).i_chunks in
             Printf.sprintf "buf=%d#%s" (List.length (buffer_rows (!st).i_buffer))
               (String.concat "/" (List.sort compare chunks))
